@@ -529,17 +529,26 @@ def check_props(ctx, rep, rng, tier):
     rep.extra["aes_props_cases"] = n
 
 
+_WIN = {}
+
+
+def windows_of(hay, w):
+    """set of all w-byte windows of hay (cached for the archive being searched)"""
+    k = (id(hay), len(hay), w)
+    if k not in _WIN:
+        if len(_WIN) > 4:
+            _WIN.clear()
+        _WIN[k] = {hay[i:i + w] for i in range(0, len(hay) - w + 1)}
+    return _WIN[k]
+
+
 def find_windows(hay, needle, w):
-    """first w-byte window of needle that occurs in hay, or None (needle windows at every offset)"""
-    if len(needle) < w:
+    """offset of the first w-byte window of needle that occurs in hay, or None (windows at every offset)"""
+    if len(needle) < w or len(hay) < w:
         return None
-    seen = set()
+    ws = windows_of(hay, w)
     for i in range(0, len(needle) - w + 1):
-        win = needle[i:i + w]
-        if win in seen:
-            continue
-        seen.add(win)
-        if win in hay:
+        if needle[i:i + w] in ws:
             return i
     return None
 
@@ -622,15 +631,10 @@ def check_archives(ctx, rep, rng, tier):
                       "members": [[n, d.hex()] for n, d in members], "blocksize": bs}
             mk = {"kind": "archive", "chain": chain, "hmode": hmode}
             bad = None
-            # --- RNG draws: one per AESCompressor construction
-            want_draws = 1 + (1 if hmode == 2 else 0)
-            if len(rec.draws) != want_draws or any(len(d) != 16 for d in rec.draws):
-                bad = ("rng", "writer drew %r from the RNG, expected %d draws of 16 bytes" % ([d.hex() for d in rec.draws], want_draws))
             # --- leak search on the bytes
-            if not bad:
-                lk = leak_search(rep, a, members, chain, hmode, None)
-                if lk:
-                    bad = ("leak", lk)
+            lk = leak_search(rep, a, members, chain, hmode, None)
+            if lk:
+                bad = ("leak", lk)
             ind = None
             if not bad and model is not None:
                 try:
@@ -640,8 +644,14 @@ def check_archives(ctx, rep, rng, tier):
             if ind is not None and not bad:
                 fo = ind["folders"][0]
                 coders = fo[0]
+                want_draws = 1 + (1 if hmode == 2 else 0)
                 if ind["mode"] != hmode:
-                    bad = ("mode", "header mode %d requested, archive has mode %d" % (hmode, ind["mode"]))
+                    bad = ("mode", "header %s requested, but the archive's header is %s%s" % (
+                        ["raw", "encoded", "ENCRYPTED"][hmode], ["raw", "encoded (not encrypted)", "encrypted"][ind["mode"]],
+                        ": member names are readable without the password" if hmode == 2 else ""))
+                elif len(rec.draws) != want_draws or any(len(d) != 16 for d in rec.draws):
+                    # one RNG draw per AESCompressor construction
+                    bad = ("rng", "writer drew %r from the RNG, expected %d draws of 16 bytes" % ([d.hex() for d in rec.draws], want_draws))
                 elif bytes(coders[0][0]) != AES_ID:
                     bad = ("chain", "first coder of the folder is %s, not 7zAES" % bytes(coders[0][0]).hex())
                 else:
@@ -828,8 +838,12 @@ def read_outcome(a, password, op, members, limit=3.0):
     delivered-original / delivered-DIFFERENT / no-bytes (a call that returns no member bytes) / empty-archive"""
     want = dict(members)
     d = tempfile.mkdtemp(prefix="c11x") if op in ("extractall", "extract_one") else None
+    # the watchdog counts CPU time of this process (a spinning loop burns it whatever the machine load is);
+    # a wall-clock limit twenty times as long catches a call that blocks without computing
     old = signal.signal(signal.SIGALRM, _alarm)
-    signal.setitimer(signal.ITIMER_REAL, limit)
+    oldp = signal.signal(signal.SIGPROF, _alarm)
+    signal.setitimer(signal.ITIMER_PROF, limit)
+    signal.setitimer(signal.ITIMER_REAL, 20 * limit)
     z = None
     try:
         z = py7zr.SevenZipFile(io.BytesIO(a), "r", password=password)
@@ -868,14 +882,16 @@ def read_outcome(a, password, op, members, limit=3.0):
             return ("delivered-DIFFERENT", "members %r delivered with other bytes" % diff)
         return ("delivered-original", sorted(got))
     except _Timeout:
-        return ("hang", "no result within %.1fs" % limit)
+        return ("hang", "no result within %.1fs of CPU time" % limit)
     except PasswordRequired:
         return ("refused", "PasswordRequired")
     except Exception as e:  # noqa
         return ("error", type(e).__name__)
     finally:
+        signal.setitimer(signal.ITIMER_PROF, 0)
         signal.setitimer(signal.ITIMER_REAL, 0)
         signal.signal(signal.SIGALRM, old)
+        signal.signal(signal.SIGPROF, oldp)
         left = []
         if d is not None:
             for dp, dn, fn in os.walk(d):
@@ -907,7 +923,7 @@ def worker_outcomes(arg):
 
 def sandbox_outcomes(a, members, cases, limit=3.0, timeout=None):
     arg = {"archive": a.hex(), "members": [[n, d.hex()] for n, d in members], "cases": cases, "limit": limit}
-    r = run_sandboxed("harness.c11:worker_outcomes", arg, timeout=timeout or (20 + limit * len(cases)), mem_mb=3000)
+    r = run_sandboxed("harness.c11:worker_outcomes", arg, timeout=timeout or (120 + 6 * limit * len(cases)), mem_mb=3000)
     if r["status"] != "ok":
         return None, r
     return r["value"], r
@@ -1031,7 +1047,7 @@ def worker_many_wrong(arg):
     members = [(n, bytes.fromhex(d)) for n, d in arg["members"]]
     counts = collections.Counter()
     examples = {}
-    t0 = time.time()
+    t0 = time.process_time()
     for i in range(arg["start"], arg["start"] + arg["count"]):
         w = "wrong-%d" % i
         cls, det = read_outcome(a, w, arg["op"], members, limit=arg.get("limit", 2.0))
@@ -1039,7 +1055,7 @@ def worker_many_wrong(arg):
         counts[key] += 1
         if cls not in ("error", "refused") and cls not in examples:
             examples[cls] = [w, str(det)[:200]]
-        if time.time() - t0 > arg.get("budget", 60):
+        if time.process_time() - t0 > arg.get("budget", 60):
             break
     return {"counts": dict(counts), "examples": examples}
 
@@ -1064,7 +1080,7 @@ def check_many_wrong(ctx, rep, rng, tier):
         chain, hmode, a = job
         arg = {"archive": a.hex(), "members": [[n, d.hex()] for n, d in members], "start": 0, "count": per,
                "op": "extractall_factory", "limit": 1.0, "budget": 45 if tier == "quick" else 600}
-        return job, run_sandboxed("harness.c11:worker_many_wrong", arg, timeout=90 if tier == "quick" else 900, mem_mb=3000)
+        return job, run_sandboxed("harness.c11:worker_many_wrong", arg, timeout=400 if tier == "quick" else 1500, mem_mb=3000)
     try:
         results = pool.map(run, jobs)
     finally:
